@@ -122,13 +122,14 @@ CHAINS = {
     "re_brace_text": 'REGEX["^a{b}c{$"]', "re_class_escapes": 'REGEX["^[a\\\\]\\\\.x]{2}[^\\\\]]$"]', "re_group_alt_empty": 'REGEX["^(a|)b$"]',
     "re_alt_top_groups": 'REGEX["^(ab)|(cd)|e$"]', "re_quote_in_pattern": 'REGEX["^say \\"hi\\"$"]', "re_unicode": 'REGEX["^caf\u00e9+$"]',
     "re_word_class": 'REGEX["^[\\\\w-]+$"]', "re_dot_star": 'REGEX["^a.*b.+c.?$"]',
+    "const_newline": 'CONST["a\\nb"]', "enum_newline_tab": 'ENUM["a\\nb","c\\td"]',
 }
 
 
 # C13: chains decided by CONST / ENUM / TYPE[BOOLEAN] / TYPE[NUMBER] / DATE / ISO8601, alone or with REQ / OPT
 C13_BASE = {
     "const_word": "CONST[abc]", "const_upper": "CONST[ACTIVE]", "const_two_words": 'CONST["two words"]', "const_quoted": 'CONST["say \\"hi\\""]',
-    "const_int": "CONST[42]", "const_neg": "CONST[-7]", "const_float": "CONST[1.5]", "const_true": "CONST[true]", "const_null": "CONST[null]",
+    "const_int": "CONST[42]", "const_one": "CONST[1]", "const_neg": "CONST[-7]", "const_float": "CONST[1.5]", "const_true": "CONST[true]", "const_null": "CONST[null]",
     "const_dash": "CONST[a-b]", "const_version": 'CONST["v1.0"]', "const_numstr": 'CONST["42"]', "const_padded": 'CONST["007"]',
     "const_colons": 'CONST["a::b"]', "const_hash": 'CONST["#tag"]', "const_comment": 'CONST["a // b"]', "const_bracket": 'CONST["[x]"]',
     "const_arrow": 'CONST["a->b"]', "const_unicode": "CONST[caf\u00e9]", "const_empty": 'CONST[""]', "const_backslash": 'CONST["back\\\\slash"]',
@@ -157,7 +158,8 @@ def chain_text(cid):
 def fields_doc(case, name="GEN_G"):
     lines = ["===%s===" % name, "META:", "  TYPE::PROTOCOL_DEFINITION", '  VERSION::"1.0"', "", "FIELDS:"]
     for f in case["fields"]:
-        lines.append('  %s::["example"∧%s→§SELF]' % (field_name(f["name"]), chain_text(f["chain"])))
+        # the example text carries an escaped line break and a quote: nothing of it may reach the grammar
+        lines.append('  %s::["first line\\nroot ::= \\"x\\""∧%s→§SELF]' % (field_name(f["name"]), chain_text(f["chain"])))
     lines += ["===END===", ""]
     return "\n".join(lines)
 
